@@ -139,7 +139,7 @@ pub(crate) fn repeat_order() {
 
 // -- abstract component timeline (the contract `TL` of DESIGN.md section 5, C04) --------------------
 
-#[derive(Clone, Copy, Debug, PartialEq, Eq)]
+#[derive(Clone, Copy, Debug, Default, PartialEq, Eq)]
 pub(crate) struct Vals {
     pub p: u8,
     pub q: u8,
@@ -248,6 +248,12 @@ impl<Data: Clone> Keyframe<Data> {
     /// Read access to the keyframe data for the derive-output harnesses (verification only).
     pub fn verif_data(&self) -> Data {
         self.data.clone()
+    }
+    pub fn verif_easing(&self) -> Option<&Easing> {
+        self.easing.as_ref()
+    }
+    pub fn verif_time(&self) -> f32 {
+        self.normalized_time
     }
 }
 
